@@ -2,6 +2,7 @@ import Driver.HdrCmd
 import Driver.CoreCmd
 import Driver.ReadCmd
 import Driver.HistCmd
+import Driver.UHistCmd
 open Driver
 
 def dispatch (line : String) : String :=
@@ -11,6 +12,7 @@ def dispatch (line : String) : String :=
     match cmd with
     | "core" => coreCmd rest
     | "hist" => histCmd rest
+    | "uhist" => uhistCmd rest
     | "read" => readCmd rest
     | "views" => viewsCmd rest
     | "meta" => metaCmd rest
